@@ -178,6 +178,47 @@ mut("c16-lookup-last-component-dropped", CLI, "        if len(split) == 1:\n    
 mut("c16-strings-converters-ignored-again", CLI, "bool_js_style = lambda s: s if isinstance(s, bool) else", "bool_js_style = lambda s:", ["C16"])
 mut("c16-merge-default-number-dropped", CLI, '            default=["percent", "number"],', '            default=["percent"],', ["C16"])
 mut("c16-ini-values-lowercased", CLI, "        return {s: dict(config.items(s)) for s in config.sections()}", "        return {s: {k: v.lower() for k, v in config.items(s)} for s in config.sections()}", ["C16"])
+# ---- C17 ----------------------------------------------------------------------------------------------
+mut("c17-output-opened-before-generation", CLI, """        structure = self.structure_fn(registry.models_map)
+        output = self.version_string + generate_code(""", """        structure = self.structure_fn(registry.models_map)
+        if self.output_file:
+            open(self.output_file, "w", encoding="utf-8").close()
+        output = self.version_string + generate_code(""", ["C17"])
+mut("c17-errors-swallowed-exit-zero", CLI, "    cli = Cli()\n    cli.parse_args()\n    print(cli.run())", "    cli = Cli()\n    try:\n        cli.parse_args()\n        print(cli.run())\n    except Exception as e:\n        print('error:', e)", ["C17"])
+mut("c17-scalar-sample-skipped", CLI, "        raise TypeError(f'dict or list is expected at {lookup if lookup != \"-\" else \"JSON root\"}, not {type(item)}')", "        return", ["C17"])
+mut("c17-missing-file-skipped", CLI, "        return path,\n", "        return (path,) if path.exists() else ()\n", ["C17"])
+mut("c17-incremental-write", CLI, """        output = self.version_string + generate_code(
+            structure,
+            self.model_generator,
+            class_generator_kwargs=self.model_generator_kwargs,
+            preamble=self.preamble
+        )
+        if self.output_file:
+            with open(self.output_file, "w", encoding="utf-8") as f:
+                f.write(output)""", """        if self.output_file:
+            with open(self.output_file, "w", encoding="utf-8") as f:
+                f.write(self.version_string)
+                output = self.version_string + generate_code(
+                    structure,
+                    self.model_generator,
+                    class_generator_kwargs=self.model_generator_kwargs,
+                    preamble=self.preamble
+                )
+                f.write(output[len(self.version_string):])
+        else:
+            output = self.version_string + generate_code(
+                structure,
+                self.model_generator,
+                class_generator_kwargs=self.model_generator_kwargs,
+                preamble=self.preamble
+            )
+        if self.output_file:""", ["C17"])
+mut("c17-non-dict-items-filtered", CLI, "    if isinstance(item, list):\n        yield from item", "    if isinstance(item, list):\n        yield from (x for x in item if isinstance(x, dict))", ["C17"])
+mut("neutral-c17-tempfile-rename-writer", CLI, """            with open(self.output_file, "w", encoding="utf-8") as f:
+                f.write(output)""", """            tmp_name = self.output_file + ".tmp"
+            with open(tmp_name, "w", encoding="utf-8") as f:
+                f.write(output)
+            os.replace(tmp_name, self.output_file)""", ["C17", "C16"], kind="neutral")
 # ---- neutral (behaviour preserving) -------------------------------------------------------------------
 mut("neutral-rename-local", G, "        fields_sets = [self._convert(data) for data in data_variants]\n        fields = self.merge_field_sets(fields_sets)",
     "        variants = [self._convert(data) for data in data_variants]\n        fields = self.merge_field_sets(variants)", ["C01", "C02", "C05"], kind="neutral")
